@@ -34,6 +34,7 @@ def run(ctx):
     ctx.not_decided += ["exactness of the cascade for every store shape (only coverage of the dependency indices is decided)", "that every surviving reference resolves (the expect(\"handle must be valid\") sites are sound only under this property)"]
 
     rank_rule(ctx, syn)
+    revisit_rule(ctx, syn)
     live_rule(ctx, prog)
 
     # ---------------- CASC
@@ -107,7 +108,7 @@ def run(ctx):
             src = unparse(strip(lp["iter"]))
             if src not in multi:
                 continue
-            if not any(unparse(c["func"]).endswith("::remove") for c in find(lp["body"], "call")):
+            if not any(unparse(c["func"]).endswith("::remove") for c in find(lp["body"], "call")) and not any(c["method"] == "remove_annotation_if_present" for c in find(lp["body"], "mcall")):
                 continue
             n_dd += 1
             ty_, init, line = decl[src]
@@ -391,3 +392,48 @@ def field_of_receiver(b, t):
         p = q
         depth += 1
     return None
+
+
+# ---------------------------------------------------------------------- REVISIT
+def revisit_rule(ctx, syn):
+    """cascade loops walk a snapshot of dependent annotations; a dependent that a nested cascade already
+    removed must be skipped (liveness test), not removed again with `?` - that aborts the removal half-way"""
+    from synq import find, unparse, strip, pat_names, walk
+    r = ctx.rule("C02.REVISIT", "every cascade loop that removes the annotations of a snapshot tests that each is still present (a nested cascade may have removed it)")
+    n = 0
+    for f in syn.fns:
+        if f.file != "src/annotationstore.rs" or f.body is None:
+            continue
+        for lp in find(f.body, "for"):
+            vars_ = pat_names(lp["pat"])
+            for c in find(lp["body"], "call"):
+                fn = re.sub(r"\s+", "", c["func"].get("s", "")) or unparse(c["func"])
+                if not re.search(r"StoreFor<Annotation>::remove$", fn) or len(c["args"]) != 2:
+                    continue
+                arg = unparse(strip(c["args"][1]))
+                if arg not in vars_:
+                    continue
+                n += 1
+                # guarded by `if ... has(self, x)` somewhere between the loop and the call?
+                guarded = False
+                for nd in find(lp["body"], "if"):
+                    if any(x is c for x in walk(nd["then"])) and re.search(r"\bhas\((self,)?%s\)|\.has\(%s\)" % (arg, arg), unparse(nd["cond"])):
+                        guarded = True
+                # an annotation the loop body has just fetched and edited is known to be alive
+                edited = re.search(r"get_mut\(%s\)" % arg, unparse(lp["body"])) is not None and "postlen" in unparse(lp["body"])
+                key = "%s|loop-over:%s" % (f.qual, re.sub(r"\W+", "_", unparse(lp["iter"]))[:40])
+                r.hit(key, sample={"function": f.qual, "iterates": unparse(lp["iter"])[:50], "guarded": guarded or edited})
+                if not (guarded or edited):
+                    ctx.report(r, key, "%s removes every annotation of the snapshot `%s` with `remove(self, %s)?` without testing that it is still present: when a nested cascade already removed one of them (an annotation depending on the item via two paths) the removal fails with NotFoundError half-way" % (f.qual, unparse(lp["iter"])[:50], arg), f.file, c.get("l"))
+        for c in find(f.body, "mcall"):
+            if c["method"] == "remove_annotation_if_present":
+                n += 1
+                r.hit("%s|guarded-helper#%d" % (f.qual, n))
+    helper = [f for f in syn.fns if f.name == "remove_annotation_if_present" and f.body is not None]
+    if helper:
+        src = unparse(helper[0].body)
+        ctx.functions_analysed.add(helper[0].qual)
+        r.hit("helper")
+        if not re.search(r"if .*has\(self,handle\)", src.replace(" ", "")) and "has(" not in src:
+            ctx.report(r, "helper-unguarded", "remove_annotation_if_present no longer tests presence before removing", helper[0].file, helper[0].line)
+    ctx.floor(r, n, 6, "cascade removals of snapshot members")
